@@ -60,7 +60,13 @@ func init() {
 		"distinct run digests in which at least one custom message was accepted", func(r *Result) bool { return trig(r, "op:custom") })
 	props["C01"] = histSpec("C01", histProfile("C01", nil, func(p *Profile) { p.PBlock = 0.08; p.PFocus = 0.4; p.PProbe = 0.1; p.PEndgame = 0.1 }),
 		"distinct run digests with an accepted state change and at least one probe/late joiner", func(r *Result) bool { return trig(r, "op:join") })
-	props["C02"] = histSpec("C02", histProfile("C02", nil, func(p *Profile) { p.MinMembers = 3; p.PBlock = 0.08; p.PFocus = 0.3; p.PEndgame = 0.15 }),
+	props["C02"] = histSpec("C02", histProfile("C02", nil, func(p *Profile) {
+		p.MinMembers = 3
+		p.PBlock = 0.1
+		p.PFocus = 0.3
+		p.PEndgame = 0.3
+		p.StallBoost = 0.3
+	}),
 		"distinct run digests with at least one accepted relayed change in a session of >= 2", func(r *Result) bool { return trig(r) })
 	props["C04"] = histSpec("C04", histProfile("C04", nil, func(p *Profile) { p.PBurst = 0.1 }),
 		"distinct run digests with at least one accepted and one refused request", func(r *Result) bool { return trig(r) })
@@ -105,6 +111,7 @@ func init() {
 		p.MinMembers = 2
 		p.PBurst = 0.2
 		p.PProbe = 0.08
+		p.NoJitter = 0.6
 		// joins, switches, departures and deletions arriving at the very instant pending
 		// updates are flushed by the frame tick
 		p.PBlock = 0.1
